@@ -149,3 +149,28 @@ Definition qstep (erase : bool) (s : qstate) (e : qev) : qstate :=
   end.
 Definition qrun (erase : bool) (h : list qev) : qstate := fold_left (qstep erase) h qinit.
 Definition q_stale (s : qstate) : nat := length (filter (fun d => negb (Nat.eqb (fst d) (snd d))) (q_deliv s)).
+
+(* ---- descriptors of queued files (FileBuffer in a write queue) ----
+   A file queued for a connection is open from the moment it is queued; it is closed when it has been sent completely
+   (asyncWriteImpl) and - since fix 57c2f35, [close_on_drop] - wherever the queue is dropped: removePeer, a failed socket,
+   a write for a peer that is gone. *)
+Inductive fev :=
+| FQueue (fd : nat) (is_file : bool)   (* a write is queued for the connection on fd; a file write opens the file *)
+| FSent (fd : nat)                     (* the front entry has been sent completely *)
+| FDrop (fd : nat).                    (* the connection's queue is dropped *)
+
+Record fstate := mkF { f_queue : nat -> list bool; f_files : nat -> nat }.   (* open files on behalf of fd's queue *)
+Definition finit : fstate := mkF (fun _ => []) (fun _ => 0).
+
+Definition count_true (l : list bool) : nat := length (filter (fun b => b) l).
+
+Definition fstep (close_on_drop : bool) (s : fstate) (e : fev) : fstate :=
+  match e with
+  | FQueue fd b => mkF (qupd (f_queue s) fd (f_queue s fd ++ [b])) (if b then qupd (f_files s) fd (S (f_files s fd)) else f_files s)
+  | FSent fd => match f_queue s fd with
+                | [] => s
+                | b :: r => mkF (qupd (f_queue s) fd r) (if b then qupd (f_files s) fd (Nat.pred (f_files s fd)) else f_files s)
+                end
+  | FDrop fd => mkF (qupd (f_queue s) fd []) (if close_on_drop then qupd (f_files s) fd (f_files s fd - count_true (f_queue s fd)) else f_files s)
+  end.
+Definition frun (c : bool) (h : list fev) : fstate := fold_left (fstep c) h finit.
